@@ -7,6 +7,7 @@ import (
 	"fmt"
 	"go/ast"
 	"go/constant"
+	"go/token"
 	"go/types"
 	"strings"
 )
@@ -108,6 +109,35 @@ func init() {
 	}
 	arg := func(f *FuncCtx, st *State, call *ast.CallExpr, i int) Term { return f.expr(st, call.Args[i]) }
 
+	// ---- encoding/json.Unmarshal(data, &local): the local is overwritten with an arbitrary value of its type ----
+	reg("encoding/json.Unmarshal", "", func(f *FuncCtx, st *State, call *ast.CallExpr, _ ast.Expr, _ *Term) []Term {
+		use(f, "json.Unmarshal(data, &v): v becomes an ARBITRARY value of its static type (nothing about the decoded content is assumed; elements of a decoded slice of structs are non-nil objects), the error is arbitrary; no panic, bounded resources (encoding/json itself is not verified)")
+		f.expr(st, call.Args[0])
+		ue, ok := ast.Unparen(call.Args[1]).(*ast.UnaryExpr)
+		var id *ast.Ident
+		if ok && ue.Op == token.AND {
+			id, _ = ast.Unparen(ue.X).(*ast.Ident)
+		}
+		if id == nil {
+			unsup("json.Unmarshal into something that is not &local at %s", f.pos(call))
+		}
+		v, _ := f.tinfo().Uses[id].(*types.Var)
+		if v == nil {
+			unsup("json.Unmarshal target at %s", f.pos(call))
+		}
+		vt := v.Type()
+		switch {
+		case valueStructs[namedPath(vt)]:
+			st.vars[v] = Term{S: f.allocRef(st, "dec_"+v.Name(), types.NewPointer(vt)).S, Sort: SInt, GoT: vt}
+		default:
+			nv := f.havocVal(st, "dec_"+v.Name(), vt)
+			if sl, ok := types.Unalias(vt).Underlying().(*types.Slice); ok && valueStructs[namedPath(sl.Elem())] {
+				st.assume("(forall ((q!i Int)) (! (=> (and (<= 0 q!i) (< q!i (len_" + nv.Sort + " " + nv.S + "))) (not (= (select (arr_" + nv.Sort + " " + nv.S + ") q!i) 0))) :pattern ((select (arr_" + nv.Sort + " " + nv.S + ") q!i))))")
+			}
+			st.vars[v] = nv
+		}
+		return []Term{f.havocVal(st, "jsonerr", f.typeOf(call))}
+	})
 	reg("reflect.ValueOf", "", func(f *FuncCtx, st *State, call *ast.CallExpr, _ ast.Expr, _ *Term) []Term {
 		a := call.Args[0]
 		t := f.typeOf(a)
